@@ -4,6 +4,7 @@ package main
 // single-variable front end, solver interaction.
 
 import (
+	"os"
 	"fmt"
 	"go/token"
 	"sort"
@@ -188,6 +189,8 @@ func termKey(t *Term, sb *strings.Builder, depth int) bool {
 		sb.WriteString(strconv.FormatUint(t.Val, 36))
 	case OpVar:
 		sb.WriteByte('$')
+	case OpLut:
+		sb.WriteString(t.Name)
 	}
 	sb.WriteByte('(')
 	for _, a := range t.Args {
@@ -791,7 +794,12 @@ func (e *Exec) sortedVarNames() []string {
 // multi-variable constraint of the cone, so evaluating rel and extra on the
 // whole product is a complete decision procedure for this query. Property
 // queries never come here (they always go to the solver).
-const enumCap = 4096
+var enumCap = func() int {
+	if n, err := strconv.Atoi(os.Getenv("GOSX_ENUMCAP")); err == nil && n > 0 {
+		return n
+	}
+	return 4096
+}()
 
 func (e *Exec) enumCheck(rel []*Term, extra *Term, want map[string]*Term) (SatResult, Model, bool) {
 	type ev struct {
